@@ -16,7 +16,15 @@ class HarnessError(Exception):
     """The machinery itself is broken (exit 2, never a VIOLATION)."""
 
 
+_DONE = False
+
+
 def bootstrap():
+    global _DONE
+    if _DONE:
+        import ckl
+        return ckl
+    _DONE = True
     sys.dont_write_bytecode = True
     if SRC in sys.path:
         sys.path.remove(SRC)
